@@ -5,7 +5,7 @@ import sys
 sys.path.insert(0, os.path.dirname(os.path.abspath(__file__)))
 import vlib
 import pfxgen
-from pfxgen import Universe, SetSpec, fmt_rec_args, parse_rec_str, rec_str, hexaddr, W
+from pfxgen import Universe, SetSpec, fmt_rec_args, parse_rec_str, rec_str, hexaddr, W, Case
 
 PROPS = {
     "C01": {
@@ -15,9 +15,13 @@ PROPS = {
                      "Rtr.C01.bits_link4", "Rtr.C01.bits_cover4", "Rtr.C01.bits_link6", "Rtr.C01.bits_cover6"],
     },
     "C02": {
-        "modules": ["RtrProps.C02"],
+        "modules": ["RtrProps.C02", "RtrProps.C02b"],
         "theorems": ["Rtr.C02.add_refines", "Rtr.C02.remove_refines", "Rtr.C02.srcRemove_refines",
-                     "Rtr.C02.forEach_enumerates", "Rtr.C02.history_refines"],
+                     "Rtr.C02.forEach_enumerates", "Rtr.C02.history_refines",
+                     # the same for arbitrary records (non-canonical prefixes): weaker invariant, no hypothesis on the operations
+                     "Rtr.C02.add_refines_any", "Rtr.C02.remove_refines_any", "Rtr.C02.srcRemove_refines_any",
+                     "Rtr.C02.forEach_enumerates_any", "Rtr.C02.history_refines_any", "Rtr.C02.history_from_empty_any",
+                     "Rtr.TableWF_TableWFg"],
     },
     "C09": {
         "modules": ["RtrProps.C09", "RtrProps.C09b"],
@@ -28,30 +32,16 @@ PROPS = {
 }
 
 
-class Case:
-    """one history: op lines + per-line tags used by the oracles"""
-
-    def __init__(self, hid):
-        self.hid = hid
-        self.ops = []
-        self.tags = []
-
-    def emit(self, line, tag):
-        self.ops.append(line)
-        self.tags.append(tag)
-
-
-def gen_history(r, hid, nops, nq, observe_every, deep=False, reload=False):
-    c = Case(hid)
-    u = Universe(r, deep=deep)
+def gen_history(r, hid, nops, nq, observe_every, deep=False, reload=False, noncanon=False):
+    c = Case(hid, "random-noncanonical" if noncanon else "random")
+    u = Universe(r, deep=deep, noncanon=noncanon)
+    vtag = "valx" if noncanon else "val"      # RFC 6811 is stated for canonical prefixes: non-canonical answers are compared with the model only
     c.emit("new 0", ("new",))
     stored = []
     k = 0
 
     def observe():
-        c.emit("dump 0", ("dump",))
-        c.emit("shape 0", ("shape",))
-        c.emit("log 0", ("log",))
+        pfxgen.observe(c)
     for i in range(nops):
         x = r.random()
         if x < 0.55 or not stored:
@@ -73,30 +63,25 @@ def gen_history(r, hid, nops, nq, observe_every, deep=False, reload=False):
         else:
             # a query in the middle of the history
             q = u.query(r, stored)
-            c.emit("val 0 %d %s %d %d" % (q[0], hexaddr(q[0], q[1]), q[2], q[3]), ("val", q))
+            pfxgen.emit_val(c, q, vtag)
         k += 1
         if k % observe_every == 0:
             observe()
     if reload:
         # what rtr_sync does for a full reload of source s: shadow copy, fill, swap, notify_diff, discard
         s = r.choice(pfxgen.SRCS)
-        c.emit("newnocb 1", ("new1",))
-        c.emit("copyx 0 1 %d" % s, ("copyx", s))
+        fill = []
         for _ in range(r.randrange(0, 10)):
             rec = u.rec(r)
-            rec = rec[:5] + (s,)
             if r.random() < 0.4 and stored:
-                old = r.choice(stored)
-                rec = old[:5] + (s,)
-            c.emit("add 1 " + fmt_rec_args(rec), ("add1", rec))
-        c.emit("swap 0 1", ("swap",))
-        c.emit("diff 0 1 %d" % s, ("diff", s))
-        c.emit("free 1", ("free1",))
+                rec = r.choice(stored)
+            fill.append(rec)
+        pfxgen.emit_reload(c, r, s, fill)
         observe()
     observe()
     for _ in range(nq):
         q = u.query(r, stored)
-        c.emit("val 0 %d %s %d %d" % (q[0], hexaddr(q[0], q[1]), q[2], q[3]), ("val", q))
+        pfxgen.emit_val(c, q, vtag)
     c.emit("free 0", ("free",))
     c.emit("log 0", ("log",))
     c.emit("dump 0", ("dump",))
@@ -136,28 +121,68 @@ def oracle(case, out, props):
     """evaluate the properties' statements on the implementation's own observations.
     returns list of (prop, line index, message)"""
     fails = []
-    spec = SetSpec()
+    tabs = {0: set(), 1: set()}    # C02: the mathematical sets (table 0 = the live table, table 1 = the shadow table of a reload)
     contents = set()           # last enumerated contents of table 0 (impl)
     have_dump = False
     replayed = set()           # C09: replay of the callback stream
     dirty = False              # table mutated since last dump
-    skip_set = False           # after a reload the set spec is re-based on the dump
+    armed = False              # a "fail k" line precedes this operation
+    partial = None             # a removal by source that reported an allocation failure: (set before, source)
     for i, (tag, line) in enumerate(zip(case.tags, out)):
         kind = tag[0]
-        if kind in ("add", "rm"):
+        if kind == "fail":
+            armed = True
+            continue
+        if kind == "failinfo":
+            continue
+        fired = False
+        if armed:
+            # the allocator's report follows the operation
+            fired = i + 1 < len(out) and "fired=1" in out[i + 1]
+            armed = False
+        if kind in ("add", "rm", "add1"):
             rec = tag[1]
-            exp = spec.add(rec) if kind == "add" else spec.rm(rec)
-            if line != str(exp):
-                fails.append(("C02", i, "%s of %s returned %s, set semantics says %s" % (kind, rec_str(rec), line, exp)))
+            if rec is None:
+                continue
+            S = tabs[1 if kind == "add1" else 0]
+            if line == "-1":
+                # PFX_ERROR: only an allocation failure justifies it, and the set is as it was
+                if not fired:
+                    fails.append(("C02", i, "%s of %s reports an error (-1) although no allocation failed" % (kind, rec_str(rec))))
+            else:
+                if kind == "rm":
+                    exp = 0 if rec in S else -3
+                    S.discard(rec)
+                else:
+                    exp = -2 if rec in S else 0
+                    S.add(rec)
+                if line != str(exp):
+                    fails.append(("C02", i, "%s of %s returned %s, set semantics says %s" % (kind, rec_str(rec), line, exp)))
             dirty = True
         elif kind == "srcrm":
-            spec.srcrm(tag[1])
-            if line != "0":
-                fails.append(("C02", i, "srcrm returned %s" % line))
+            if line == "-1" and fired:
+                partial = (set(tabs[0]), tag[1])
+            else:
+                tabs[0] = set(r for r in tabs[0] if r[5] != tag[1])
+                if line != "0":
+                    fails.append(("C02", i, "srcrm returned %s" % line))
             dirty = True
-        elif kind in ("copyx", "add1", "swap", "diff", "free1", "new1"):
-            if kind == "swap":
-                skip_set = True
+        elif kind == "new1":
+            tabs[1] = set()
+            dirty = True
+        elif kind == "copyx":
+            if line != "0" and not tabs[1]:
+                fails.append(("C02", i, "copy into an empty table returned %s" % line))
+            tabs[1] |= set(r for r in tabs[0] if r[5] != tag[1])
+            dirty = True
+        elif kind == "swap":
+            tabs[0], tabs[1] = tabs[1], tabs[0]
+            dirty = True
+        elif kind == "diff":
+            tabs[1] = set(r for r in tabs[1] if not (r[5] == tag[1] and r in tabs[0]))
+            dirty = True
+        elif kind == "free1":
+            tabs[1] = set()
             dirty = True
         elif kind == "dump":
             toks = line.split()[1:]
@@ -167,15 +192,18 @@ def oracle(case, out, props):
             contents = set(recs)
             have_dump = True
             dirty = False
-            if skip_set:
-                spec.s = set(contents)      # re-base after the reload (its net effect is judged by C09 / C03)
-                skip_set = False
-            elif contents != spec.s:
-                missing = spec.s - contents
-                extra = contents - spec.s
+            if partial is not None:
+                before, src = partial
+                partial = None
+                if not (set(r for r in before if r[5] != src) <= contents <= before):
+                    fails.append(("C02", i, "after a failed removal by source the contents are not between the old set and the old set minus the source"))
+                tabs[0] = set(contents)
+            elif contents != tabs[0]:
+                missing = tabs[0] - contents
+                extra = contents - tabs[0]
                 fails.append(("C02", i, "contents differ from the mathematical set: missing %s extra %s" % (
                     [rec_str(x) for x in sorted(missing)][:4], [rec_str(x) for x in sorted(extra)][:4])))
-                spec.s = set(contents)
+                tabs[0] = set(contents)
         elif kind == "log":
             for t in line.split()[1:]:
                 rec = parse_rec_str(t[1:])
@@ -194,23 +222,177 @@ def oracle(case, out, props):
                 replayed = set(contents)
         elif kind == "free":
             dirty = True
-            spec.s = set()
+            tabs[0] = set()
         elif kind == "val":
             v, q, n, asn = tag[1]
             toks = line.split()
+            if line == "rc=-1" and fired:
+                continue            # PFX_ERROR for want of memory; the table is judged by the next dump
             if not toks or toks[0] not in ("VALID", "INVALID", "NOTFOUND"):
                 fails.append(("C01", i, "validation did not answer: " + line))
                 continue
             reasons = [parse_rec_str(t) for t in toks[1:]]
-            msg = pfxgen.check_validation(spec.s, v, q, n, asn, toks[0], reasons)
+            msg = pfxgen.check_validation(tabs[0], v, q, n, asn, toks[0], reasons)
             if msg:
                 fails.append(("C01", i, "query %d:%s/%d AS%d: %s" % (v, hexaddr(v, q), n, asn, msg)))
     return fails
 
 
+SHAPE_RE = None
+
+
+def measure(case, io, m):
+    """what this history reached on the implementation (for the coverage gates): deepest node per family, largest node,
+    allocation failures that fired, first add into an empty family failed at allocation k"""
+    global SHAPE_RE
+    import re
+    if SHAPE_RE is None:
+        SHAPE_RE = re.compile(r"\((\d+) [0-9a-f]+/\d+ [-LR][-LR] \[([^\]]*)\]\)")
+    d4 = d6 = node = 0
+    sizes = set()
+    for tag, line in zip(case.tags, io):
+        if tag[0] != "shape":
+            continue
+        p4, _, p6 = line.partition(" shape6")
+        for part, v in ((p4, 4), (p6, 6)):
+            for mm in SHAPE_RE.finditer(part):
+                d = int(mm.group(1))
+                nn = mm.group(2).count(",") + 1 if mm.group(2) else 0
+                if v == 4:
+                    d4 = max(d4, d)
+                else:
+                    d6 = max(d6, d)
+                if nn > node:
+                    node = nn
+                if nn >= 32:
+                    sizes.add(nn)
+    m["max_depth4"] = max(m.get("max_depth4", 0), d4)
+    m["max_depth6"] = max(m.get("max_depth6", 0), d6)
+    cls = case.cls
+    m.setdefault("classes", {})
+    m["classes"][cls] = m["classes"].get(cls, 0) + 1
+    if cls == "fat":
+        m.setdefault("fat_sizes", set()).update(sizes)
+        # a removal by source that hit exactly one record of the big node
+        want = case.expect.get("node")
+        if want in sizes:
+            m.setdefault("fat_done", set()).add(want)
+    elif cls == "spine":
+        for v, d in ((4, d4), (6, d6)):
+            if case.expect.get("depth%d" % v) == d:
+                m.setdefault("spine", set()).add((v, case.expect["pattern"]))
+    elif cls == "ncspine":
+        m["nc_depth4"] = max(m.get("nc_depth4", 0), d4)
+        m["nc_depth6"] = max(m.get("nc_depth6", 0), d6)
+        for v, d in ((4, d4), (6, d6)):
+            if case.expect.get("ncnodes%d" % v) == d + 1:
+                m.setdefault("nc_exact", set()).add((v, d + 1))
+    elif cls == "allocfail":
+        seen_family = set()
+        for i, tag in enumerate(case.tags):
+            if tag[0] == "fail" and i + 2 < len(io):
+                fired = "fired=1" in io[i + 2]
+                if fired:
+                    m["alloc_fired"] = m.get("alloc_fired", 0) + 1
+                    if io[i + 1] in ("-1", "rc=-1"):
+                        m["alloc_failed_ops"] = m.get("alloc_failed_ops", 0) + 1
+                op = case.tags[i + 1]
+                if op[0] == "add" and op[1][0] not in seen_family:
+                    if fired and io[i + 1] == "-1":
+                        m.setdefault("first_add_failed", set()).add((op[1][0], tag[1]))
+                    elif not fired and io[i + 1] == "0":
+                        # k exceeds the number of requests this add makes: every request of it has been made to fail
+                        m.setdefault("first_add_exhausted", set()).add(op[1][0])
+            elif tag[0] == "add" and i < len(io) and io[i] == "0":
+                seen_family.add(tag[1][0])      # only the very first successful add of a family counts as "into an empty family"
+
+
+def model_ops(ops, impl):
+    """the request lines for the model: an operation that the armed allocator made fail (it reported an error) is, for the
+    model, `failed <op>` - error code, every table as it was"""
+    if not any(o.startswith("fail ") for o in ops):
+        return ops
+    out = list(ops)
+    for i, o in enumerate(ops):
+        if o.startswith("fail ") and i + 2 < len(ops) and ops[i + 2] == "failinfo" and i + 2 < len(impl):
+            if "fired=1" in impl[i + 2] and impl[i + 1] in ("-1", "rc=-1"):
+                out[i + 1] = "failed " + ops[i + 1]
+    return out
+
+
+def norm_impl(lines):
+    return ["failinfo" if l.startswith("failinfo ") else l for l in lines]
+
+
+def build_cases(r, tier, corpus):
+    """the histories of one run: corpus, then the classes that reach a particular region deterministically, then random ones"""
+    cases = list(corpus)
+    rf = vlib.rng("pfx-classes")
+    for n, light in pfxgen.fat_sizes(tier):
+        c = pfxgen.gen_fat(rf, "fat:%d" % n, n, light)
+        c.nomodel = n > 8000
+        cases.append(c)
+    for v in (4, 6):
+        for pat in pfxgen.SPINE_PATTERNS:
+            for order in ("asc", "desc", "shuffle"):
+                cases.append(pfxgen.gen_spine(rf, "spine:%d:%s:%s" % (v, pat, order), v, pat, order))
+    for v, ms in pfxgen.noncanon_spines(tier).items():
+        for j, M in enumerate(ms):
+            pats = pfxgen.SPINE_PATTERNS if tier == "thorough" else [pfxgen.SPINE_PATTERNS[j % 4]]
+            if M == 2 * W(v) + 1 and tier != "thorough":
+                pats = ["left", "rand"]
+            for pat in pats:
+                cases.append(pfxgen.gen_noncanon_spine(rf, "ncspine:%d:%d:%s" % (v, M, pat), v, M, pat))
+    for h in range({"quick": 24, "thorough": 400}[tier]):
+        cases.append(pfxgen.gen_allocfail(rf, "allocfail:%d" % h, rf.randrange(4, 9)))
+    for h in range({"quick": 150, "thorough": 3000}[tier]):
+        cases.append(gen_history(rf, "nc:%d" % h, rf.randrange(10, 60), rf.randrange(5, 20), rf.choice([1, 3, 7]),
+                                 reload=(rf.random() < 0.3), noncanon=True))
+    nh = {"quick": 1500, "thorough": 20000}[tier]
+    for h in range(nh):
+        x = r.random()
+        if x < 0.5:
+            cases.append(gen_history(r, h, r.randrange(3, 25), r.randrange(5, 30), 1, reload=(r.random() < 0.3)))
+        elif x < 0.9:
+            cases.append(gen_history(r, h, r.randrange(20, 80), r.randrange(10, 40), r.choice([1, 3, 7]), reload=(r.random() < 0.3)))
+        else:
+            cases.append(gen_history(r, h, r.randrange(60, 200), r.randrange(20, 60), 10, deep=True))
+    cases.append(gen_bits(r, 300 if tier == "quick" else 5000))
+    return cases
+
+
+def gates(m, tier):
+    """coverage gates: a class that is required and was not exercised is a failure of the check"""
+    bad = []
+    want = set(n for n, _ in pfxgen.fat_sizes(tier))
+    got = m.get("fat_done", set())
+    if want - got:
+        bad.append("fat-node class: no trie node with %s records was observed" % sorted(want - got)[:6])
+    if not any(n >= 300 for n in got):
+        bad.append("fat-node class: no node with 300 or more records")
+    for v in (4, 6):
+        for pat in pfxgen.SPINE_PATTERNS:
+            if (v, pat) not in m.get("spine", set()):
+                bad.append("full-spine class: IPv%d pattern %s did not reach depth %d" % (v, pat, W(v)))
+        if m.get("nc_depth%d" % v, 0) < 2 * W(v):
+            bad.append("non-canonical class: deepest IPv%d path has depth %d, %d required" % (v, m.get("nc_depth%d" % v, 0), 2 * W(v)))
+    for v in (4, 6):
+        # the first add into an empty family: allocation 1 failed, and so did every further one the add makes (the attempt with
+        # the next k went through without reaching the armed request)
+        if (v, 1) not in m.get("first_add_failed", set()) or v not in m.get("first_add_exhausted", set()):
+            bad.append("failing allocator: first add into an empty IPv%d half not failed at every allocation it makes (failed at %s, exhausted: %s)" % (
+                v, sorted(k for f, k in m.get("first_add_failed", set()) if f == v), v in m.get("first_add_exhausted", set())))
+    if m.get("alloc_failed_ops", 0) < {"quick": 80, "thorough": 1300}[tier]:
+        bad.append("failing allocator: only %d operations failed" % m.get("alloc_failed_ops", 0))
+    return bad
+
+
 def run(pid, tier):
+    import time
     rep = vlib.Report(pid, tier)
     P = PROPS[pid]
+    phases = {}
+    t_ph = time.time()
     cb_handle = None
     if pid == "C01":
         import cbmccheck
@@ -233,104 +415,144 @@ def run(pid, tier):
         vlib.proof_failure(rep, "harness build against /repo failed (correspondence pfx)")
         return rep.finish()
 
+    phases["proofs_drivers_harness_build (incl. waiting for the shared lake lock)"] = round(time.time() - t_ph, 1)
+    t_ph = time.time()
     r = vlib.rng(pid)
-    cases = []
-    nh = {"quick": 1500, "thorough": 20000}[tier]
     # corpus first
     cdir = os.path.join(vlib.VERIF, "corpus", "pfx")
     corpus = []
     if os.path.isdir(cdir):
         for f in sorted(os.listdir(cdir)):
             if f.endswith(".ops"):
-                c = Case("corpus:" + f)
+                c = Case("corpus:" + f, "corpus")
                 for line in open(os.path.join(cdir, f)):
                     line = line.strip()
                     if not line or line.startswith("#"):
                         continue
                     c.emit(line, tag_of(line))
                 corpus.append(c)
-    cases.extend(corpus)
-    for h in range(nh):
-        x = r.random()
-        if x < 0.5:
-            cases.append(gen_history(r, h, r.randrange(3, 25), r.randrange(5, 30), 1, reload=(r.random() < 0.3)))
-        elif x < 0.9:
-            cases.append(gen_history(r, h, r.randrange(20, 80), r.randrange(10, 40), r.choice([1, 3, 7]), reload=(r.random() < 0.3)))
-        else:
-            cases.append(gen_history(r, h, r.randrange(60, 200), r.randrange(20, 60), 10, deep=True))
-    cases.append(gen_bits(r, 300 if tier == "quick" else 5000))
+    cases = build_cases(r, tier, corpus)
 
     stats = {"histories": len(cases), "ops": 0, "rc": {}, "states": {}, "max_depth4": 0, "max_depth6": 0,
              "reloads": 0, "corpus": len(corpus)}
+    meas = {}
     distinct = set()
     divergences = []
     oracle_fails = []
     crashes = []
 
-    # run in batches so that a crash only loses one batch
-    B = 50
-    for b0 in range(0, len(cases), B):
-        batch = cases[b0:b0 + B]
+    # run in batches so that a crash only loses one batch; a batch is at most 50 histories / 12000 request lines
+    batches = []
+    cur, curn = [], 0
+    for c in cases:
+        if cur and (len(cur) >= 50 or curn + len(c.ops) > 12000 or getattr(c, "nomodel", False) or getattr(cur[-1], "nomodel", False)):
+            batches.append(cur)
+            cur, curn = [], 0
+        cur.append(c)
+        curn += len(c.ops)
+    if cur:
+        batches.append(cur)
+
+    def run_batch(batch):
         ops = [l for c in batch for l in c.ops]
-        impl, rc, err = vlib.run_lines(exe, ops)
-        model, mrc, merr = vlib.run_lines(drv, ops)
-        if mrc != 0:
-            rep.build_log = "model driver failed: rc=%s %s" % (mrc, merr[-500:])
-            vlib.proof_failure(rep, "model driver crashed on batch %d" % b0)
-            return rep.finish()
+        impl, rc, err = vlib.run_lines(exe, ops, timeout=1800)
         if rc != 0 or len(impl) != len(ops):
-            # locate the history that crashes by running them singly
+            return ops, impl, rc, err, None, 0, ""
+        if all(getattr(c, "nomodel", False) for c in batch):
+            # histories too long for the list-based model (a node with tens of thousands of records): judged by the oracles only
+            return ops, impl, rc, err, norm_impl(impl), 0, ""
+        model, mrc, merr = vlib.run_lines(drv, model_ops(ops, impl), timeout=600)
+        return ops, impl, rc, err, model, mrc, merr
+
+    from concurrent.futures import ThreadPoolExecutor
+    stop = False
+    with ThreadPoolExecutor(max_workers=min(6, vlib.jobs())) as ex:
+        futs = [ex.submit(run_batch, b) for b in batches]
+        for bi, (batch, fut) in enumerate(zip(batches, futs)):
+            if stop:
+                fut.cancel()
+                continue
+            ops, impl, rc, err, model, mrc, merr = fut.result()
+            if model is not None and mrc != 0:
+                rep.build_log = "model driver failed: rc=%s %s" % (mrc, merr[-500:])
+                vlib.proof_failure(rep, "model driver crashed on batch %d" % bi)
+                for f2 in futs[bi + 1:]:
+                    f2.cancel()
+                return rep.finish()
+            if model is None:
+                # locate the history that crashes by running them singly
+                for c in batch:
+                    o1, rc1, err1 = vlib.run_lines(exe, c.ops, timeout=600)
+                    if rc1 != 0 or len(o1) != len(c.ops):
+                        crashes.append((c, len(o1), rc1, err1))
+                        break
+                if tier == "quick":
+                    stop = True
+                continue
+            pos = 0
             for c in batch:
-                o1, rc1, err1 = vlib.run_lines(exe, c.ops)
-                if rc1 != 0 or len(o1) != len(c.ops):
-                    crashes.append((c, len(o1), rc1, err1))
-                    break
-            continue
-        pos = 0
-        for c in batch:
-            n = len(c.ops)
-            io, mo = impl[pos:pos + n], model[pos:pos + n]
-            pos += n
-            stats["ops"] += n
-            d = vlib.first_divergence(io, mo)
-            if d is not None:
-                divergences.append((c, d, io[d] if d < len(io) else "<eof>", mo[d] if d < len(mo) else "<eof>"))
-            for f in oracle(c, io, pid):
-                oracle_fails.append((c, f))
-            for tag, line in zip(c.tags, io):
-                if tag[0] in ("add", "rm"):
-                    stats["rc"][tag[0] + line] = stats["rc"].get(tag[0] + line, 0) + 1
-                elif tag[0] == "val":
-                    st = line.split()[0] if line.split() else "?"
-                    stats["states"][st] = stats["states"].get(st, 0) + 1
-                    distinct.add((tag[1], line))
-                elif tag[0] == "shape":
-                    distinct.add(line)
-                    for part, key in ((line.split(" shape6")[0], "max_depth4"), (line.split(" shape6")[-1], "max_depth6")):
-                        for m in part.split("(")[1:]:
-                            try:
-                                dpt = int(m.split()[0])
-                            except ValueError:
-                                continue
-                            if dpt > stats[key]:
-                                stats[key] = dpt
-                elif tag[0] == "swap":
-                    stats["reloads"] += 1
-        if (divergences or oracle_fails or crashes) and tier == "quick":
-            break
+                n = len(c.ops)
+                io, mo = impl[pos:pos + n], model[pos:pos + n]
+                pos += n
+                stats["ops"] += n
+                d = vlib.first_divergence(norm_impl(io), mo)
+                if d is not None:
+                    divergences.append((c, d, io[d] if d < len(io) else "<eof>", mo[d] if d < len(mo) else "<eof>"))
+                for f in oracle(c, io, pid):
+                    oracle_fails.append((c, f))
+                measure(c, io, meas)
+                for tag, line in zip(c.tags, io):
+                    if tag[0] in ("add", "rm"):
+                        stats["rc"][tag[0] + line] = stats["rc"].get(tag[0] + line, 0) + 1
+                    elif tag[0] in ("val", "valx"):
+                        st = line.split(None, 1)[0] if line else "?"
+                        stats["states"][st] = stats["states"].get(st, 0) + 1
+                        distinct.add((tag[1], hash(line)))
+                    elif tag[0] == "shape":
+                        distinct.add(hash(line))
+                    elif tag[0] == "swap":
+                        stats["reloads"] += 1
+            if (divergences or oracle_fails or crashes) and tier == "quick":
+                stop = True
+    phases["histories (generate, run both sides, oracles)"] = round(time.time() - t_ph, 1)
+    rep.cov["phases_s"] = phases
+    stats["max_depth4"] = meas.get("max_depth4", 0)
+    stats["max_depth6"] = meas.get("max_depth6", 0)
+    unmet = [] if (divergences or oracle_fails or crashes) else gates(meas, tier)
+    stats["classes"] = meas.get("classes", {})
+    stats["fat_node_sizes"] = sorted(meas.get("fat_done", set()))
+    stats["full_spines"] = sorted("%d:%s" % x for x in meas.get("spine", set()))
+    stats["noncanonical_max_depth"] = {"ipv4": meas.get("nc_depth4", 0), "ipv6": meas.get("nc_depth6", 0)}
+    stats["noncanonical_exact_path_lengths"] = sorted("%d:%d" % x for x in meas.get("nc_exact", set()))
+    stats["alloc_failures_fired"] = meas.get("alloc_fired", 0)
+    stats["alloc_failed_operations"] = meas.get("alloc_failed_ops", 0)
+    stats["first_add_into_empty_family_failed_at"] = sorted("v%d:k%d" % x for x in meas.get("first_add_failed", set()))
+    stats["coverage_gates_unmet"] = unmet
+    stats["histories_judged_by_the_oracles_only (too long for the model)"] = [c.hid for c in cases if getattr(c, "nomodel", False)]
 
     rep.cov.update({
         "evaluations": stats["ops"], "distinct_nontrivial": len(distinct),
         "rule": "random operation histories over nested prefix universes (both families, 3 sources, 4 AS numbers incl. 0), "
                 "observed after every k-th op (dump, trie shape, callback log) and closed by queries derived from stored "
-                "prefixes; distinct = distinct (query, answer) pairs and distinct trie shapes observed on the implementation",
+                "prefixes; plus classes that reach a region deterministically, each with a coverage gate: fat nodes (one "
+                "prefix/length holding 255..257, 300 and L-1..L+1 records for every integer literal L of the sources under test, "
+                "queries whose only match is late in the node's array, removal of a source owning one of the records), full "
+                "spines (33 / 129 nested prefixes, 4 bit patterns x 3 insertion orders, with reload = shadow copy + swap + diff), "
+                "non-canonical prefixes (host bits set: random histories and root paths of up to 2w+1 nodes, lengths from the "
+                "literals of the sources), failing allocator (allocation k = 1.. of every operation of short histories). "
+                "distinct = distinct (query, answer) pairs and distinct trie shapes observed on the implementation",
+        "domains": {"theorems (C01, C02, C09)": "records with canonical prefixes (length <= 32/128, host bits zero): TableWF / RecOK",
+                    "correspondence model = implementation": "canonical and non-canonical prefixes with length <= 32/128 (the model is literal: it needs no well-formedness to run)",
+                    "set semantics (C02) and callback replay (C09) evaluated by the Python oracle on the implementation's answers": "canonical and non-canonical prefixes, operations that fail for want of memory included",
+                    "RFC 6811 oracle (C01)": "canonical prefixes only (validation of a table holding non-canonical records is compared with the model, not with RFC 6811)"},
         "traces_validated_against_impl": len(cases) - len(divergences) - len(crashes),
         "distribution": stats,
     })
     for c in cases[:2] + cases[-1:]:
         rep.sample({"history": c.hid, "ops": c.ops[:12]})
     rep.assumptions = ["pthread rwlocks are not exercised here (single thread)",
-                       "allocation never fails in these runs (see C18)"]
+                       "allocation failures: add / remove / remove-by-source / validate with the k-th request failing are run and judged "
+                       "by the set oracle here; the model of failing allocation itself is C18's"]
 
     mine = [x for x in oracle_fails if x[1][0] == pid]
     sync_found = []
@@ -358,6 +580,9 @@ def run(pid, tier):
         rep.build_log = "history %s line %d (%s)\n impl : %s\n model: %s\nops:\n%s" % (
             c.hid, d, c.ops[d] if d < len(c.ops) else "", a, b, "\n".join(c.ops[:d + 1]))
         vlib.proof_failure(rep, "correspondence pfx (model RtrModel.PfxTable vs trie.c/trie-pfx.c) diverges")
+    if unmet and not mine and not crashes and not divergences:
+        rep.build_log = "\n".join(unmet)
+        vlib.proof_failure(rep, "coverage gate of the prefix-table correspondence not met (a required class of histories was not exercised)")
     cb_failed = []
     if cb_handle is not None:
         cb = cbmccheck.join(cb_handle)
@@ -396,15 +621,15 @@ def replay(path):
     if exe is None:
         print(blog)
         return 1
-    io, rc, err = vlib.run_lines(exe, c.ops)
-    mo, mrc, merr = vlib.run_lines(drv, c.ops)
+    io, rc, err = vlib.run_lines(exe, c.ops, timeout=600)
+    mo, mrc, merr = vlib.run_lines(drv, model_ops(c.ops, io), timeout=600)
     print("\n".join("%s    => %s" % (a, b) for a, b in zip(c.ops, io)))
     bad = 0
     if rc != 0 or len(io) != len(c.ops):
         bad = 1
         print("implementation aborted (rc=%s) after %d replies: %s\n%s" % (rc, len(io), crash_signature(err), err[-2500:]))
     else:
-        d = vlib.first_divergence(io, mo)
+        d = vlib.first_divergence(norm_impl(io), mo)
         if d is not None:
             bad = 1
             print("DIVERGENCE from the model at line %d (%s)\n impl : %s\n model: %s" % (d, c.ops[d] if d < len(c.ops) else "", io[d] if d < len(io) else "<eof>", mo[d] if d < len(mo) else "<eof>"))
@@ -418,23 +643,37 @@ def replay(path):
 
 def tag_of(line):
     w = line.split()
-    if w[0] in ("add", "rm") and w[1] == "0":
-        return (w[0], (int(w[2]), int(w[3], 16), int(w[4]), int(w[5]), int(w[6]), int(w[7])))
-    if w[0] == "add" and w[1] != "0":
-        return ("add1", None)
-    if w[0] == "srcrm" and w[1] == "0":
-        return ("srcrm", int(w[2]))
-    if w[0] == "val":
-        return ("val", (int(w[2]), int(w[3], 16), int(w[4]), int(w[5])))
-    if w[0] in ("dump", "shape", "log") and w[1] == "0":
-        return (w[0],)
-    if w[0] == "free" and w[1] == "0":
-        return ("free",)
-    if w[0] == "new" and w[1] == "0":
-        return ("new",)
-    if w[0] in ("bits4", "bits6", "left", "cov"):
-        return ("bits",)
-    return (w[0] if w[0] in ("swap", "copyx", "diff") else "other",)
+
+    def rec(ws):
+        return (int(ws[0]), int(ws[1], 16), int(ws[2]), int(ws[3]), int(ws[4]), int(ws[5]))
+    try:
+        if w[0] in ("add", "rm") and w[1] == "0":
+            return (w[0], rec(w[2:8]))
+        if w[0] == "add" and w[1] == "1":
+            return ("add1", rec(w[2:8]))
+        if w[0] == "srcrm" and w[1] == "0":
+            return ("srcrm", int(w[2]))
+        if w[0] == "val":
+            return ("val", (int(w[2]), int(w[3], 16), int(w[4]), int(w[5])))
+        if w[0] in ("dump", "shape", "log") and w[1] == "0":
+            return (w[0],)
+        if w[0] == "free":
+            return ("free",) if w[1] == "0" else ("free1",) if w[1] == "1" else ("other",)
+        if w[0] in ("new", "newnocb"):
+            return ("new",) if w[1] == "0" else ("new1",) if w[1] == "1" else ("other",)
+        if w[0] in ("bits4", "bits6", "left", "cov"):
+            return ("bits",)
+        if w[0] == "fail":
+            return ("fail", int(w[1]))
+        if w[0] == "failinfo":
+            return ("failinfo",)
+        if w[0] == "swap" and w[1:3] == ["0", "1"]:
+            return ("swap",)
+        if w[0] in ("copyx", "diff") and w[1:3] == ["0", "1"]:
+            return (w[0], int(w[3]))
+    except (ValueError, IndexError):
+        pass
+    return ("other",)
 
 
 def crash_signature(err):
@@ -451,24 +690,46 @@ def crash_signature(err):
     return "crash"
 
 
+def units(ops):
+    """indices grouped so that minimisation keeps a history meaningful: `fail k` / operation / `failinfo` stay together, and so
+    does a reload (new shadow table .. copy .. fill .. swap .. diff .. free of the shadow table: the callback oracle is about
+    the live table, a swap without its diff is not a history the library produces)"""
+    out = []
+    i = 0
+    while i < len(ops):
+        if ops[i].startswith("fail ") and i + 2 < len(ops) and ops[i + 2] == "failinfo":
+            out.append([i, i + 1, i + 2])
+            i += 3
+        elif ops[i] in ("newnocb 1", "new 1") and "free 1" in ops[i:]:
+            j = ops.index("free 1", i)
+            out.append(list(range(i, j + 1)))
+            i = j + 1
+        else:
+            out.append([i])
+            i += 1
+    return out
+
+
 def minimise_crash(exe, ops):
-    def fails(x):
-        o, rc, err = vlib.run_lines(exe, x)
+    def fails(us):
+        o, rc, err = vlib.run_lines(exe, [ops[i] for u in us for i in u], timeout=600)
         return rc != 0
-    return vlib.ddmin(ops, fails, max_tests=150)
+    us = vlib.ddmin(units(ops), fails, max_tests=150)
+    return [ops[i] for u in us for i in u]
 
 
 def minimise_oracle(exe, case, prop, msg):
-    def fails(idx):
+    def fails(us):
         c = Case("min")
-        for i in idx:
-            c.emit(case.ops[i], case.tags[i])
-        o, rc, err = vlib.run_lines(exe, c.ops)
+        for u in us:
+            for i in u:
+                c.emit(case.ops[i], case.tags[i])
+        o, rc, err = vlib.run_lines(exe, c.ops, timeout=600)
         if rc != 0 or len(o) != len(c.ops):
             return False
-        return any(f[0] == prop for f in oracle(c, o, prop))
-    idx = vlib.ddmin(list(range(len(case.ops))), fails, max_tests=150)
-    return [case.ops[i] for i in idx]
+        return any(f[0] == prop and f[2].split(":")[0] == msg.split(":")[0] for f in oracle(c, o, prop))
+    us = vlib.ddmin(units(case.ops), fails, max_tests=150)
+    return [case.ops[i] for u in us for i in u]
 
 
 if __name__ == "__main__":
